@@ -1,6 +1,6 @@
-// Package props holds one executable check per property. Every check is a
+// Package fw is the property-check framework: every check is a
 // pure function of a JSON-serialisable case; rapid only draws the case.
-package props
+package fw
 
 import (
 	"encoding/json"
